@@ -536,6 +536,10 @@ func (s *storage) runSizeLimiter() {
 		s.logger.Infof("Read access times of %v files in %v", len(withAccessTime), time.Now().Sub(t))
 		t = time.Now()
 		for n, i := range withAccessTime {
+			if _, onDisk := s.withoutAccessTime[n]; !onDisk {
+				// logged before the entry was removed: nothing to account for or to purge
+				continue
+			}
 			s.withAccessTime[n] = i
 			delete(s.withoutAccessTime, n)
 		}
